@@ -11,10 +11,11 @@ import itertools
 import random
 
 from eliot import (ActionType, Field, Logger, MessageType, add_destinations, add_global_fields, current_action, fields as fields_factory,
-                   remove_destination, start_action)
+                   log_message, remove_destination, start_action)
 from eliot import _output, _validation
 
 from vf import excs, gen
+from vf.forkrun import call_in_fork
 from vf.gen import json_equal
 from vf.runner import h
 from vf.tape import Recorder, Tape
@@ -34,7 +35,12 @@ RULE = ("generated type definitions (1-4 declared fields, serializers from a poo
         "logs a message of its own type (re-entrancy), and 2-3 threads logging one type under the line-granular scheduler (LINE events on "
         "eliot/_validation.py and eliot/_output.py, all one-preemption schedules + sampled): every delivered message holds its own values (a third of the thread cases: every serializer fails, one traceback + one "
         "serialization_failure per call). Typed child actions / messages failing inside an action bound to another logger object report to the destinations. In 30% of the cases "
-        "the failing serializers raise one stored exception object again and again")
+        "the failing serializers raise one stored exception object again and again. Half of the Message objects made by calling a MessageType pass "
+        "through copy.copy / copy.deepcopy (alone, inside a copied container or object graph, copied twice, or copied and then bound) before "
+        ".write(): the copy is serialized and reported exactly like the original. Part 'startup': the same generated cases in processes that "
+        "have never added a destination - the typed call (after 1-4 plain messages) is made BEFORE the first add_destinations, the "
+        "destination is added afterwards and the replayed start-up buffer is judged by the same oracle (counted only when the plain "
+        "messages logged just before were replayed too)")
 ASSUMPTIONS = ["Logger.write with an explicit serializer uses MessageType._serializer (the object the library itself passes)",
                "serializers raise Exception subclasses"]
 BATCH = 250
@@ -59,6 +65,8 @@ def plan(tier, seed):
     n = 60000 if tier == "quick" else 600000
     specs = [{"part": "seq", "seed": seed, "lo": i, "hi": min(n, i + BATCH), "globals": (i // BATCH) % 2 == 1} for i in range(0, n, BATCH)]
     specs += [{"part": "threads", "seed": seed, "i": i, "tier": tier} for i in range(12 if tier == "quick" else 150)]
+    ns, per = (8, 40) if tier == "quick" else (40, 100)
+    specs += [{"part": "startup", "seed": seed, "lo": j * per, "hi": (j + 1) * per} for j in range(ns)]
     return specs
 
 
@@ -162,8 +170,45 @@ def tpl_type(tpl, what):
     return tpl["types"][what]
 
 
-def one(seed, i, has_globals, gfields, res, templates=()):
+VIAS = [None, None, None, None, "copy", "deepcopy", "container", "object", "copy_twice", "copy_bind", "deepcopy_bind", "shallow_container"]
+
+
+class _Holder(object):
+    """An application object (a queue item, a retry record) that holds a message to be written later."""
+
+    def __init__(self, message):
+        self.message = message
+        self.attempts = [1, 2]
+
+
+def via_copy(msg, via, extra):
+    """The typed Message object on its way from where it was made to where it is written: copied by the standard copy module."""
+    if via == "copy":
+        return copy.copy(msg)
+    if via == "deepcopy":
+        return copy.deepcopy(msg)
+    if via == "container":
+        return copy.deepcopy({"queued": [msg], "n": 1})["queued"][0]
+    if via == "object":
+        return copy.deepcopy(_Holder(msg)).message
+    if via == "copy_twice":
+        return copy.deepcopy(copy.copy(msg))
+    if via == "copy_bind":
+        extra["undeclared_bound"] = ["bound", 1]
+        return copy.copy(msg).bind(undeclared_bound=["bound", 1])
+    if via == "deepcopy_bind":
+        extra["undeclared_bound"] = {"bound": 2}
+        return copy.deepcopy([msg])[0].bind(undeclared_bound={"bound": 2})
+    if via == "shallow_container":
+        return copy.copy(_Holder(copy.copy(msg))).message
+    return msg
+
+
+def one(seed, i, has_globals, gfields, res, templates=(), late_add=False):
+    """late_add: the case runs in a process that has never added a destination; the typed call is made first (start-up buffering),
+    the recording destination is added afterwards and receives the buffered messages."""
     rng = random.Random("%s:C13:%d" % (seed, i))
+    via = random.Random("%s:C13:via:%d" % (seed, i)).choice(VIAS)
     kind = rng.choice(KINDS)
     nf = rng.randint(1, 4)
     # Type definitions are long-lived objects in real programs: most cases re-use one of the batch's templates (same Field /
@@ -214,7 +259,13 @@ def one(seed, i, has_globals, gfields, res, templates=()):
     snap = snapshot(supplied)
     tape = Tape()
     rec = Recorder(tape, "rec")
-    add_destinations(rec)
+    nprelude = 0
+    if late_add:
+        nprelude = rng.randint(1, 4)
+        for j in range(nprelude):
+            log_message(message_type="c13:prelude", n=j)
+    else:
+        add_destinations(rec)
     problems = []
     ctx = None  # (uuid, level prefix) where reports must land, or None for "own tasks"
     target = None  # predicate identifying the typed message on the tape
@@ -234,7 +285,7 @@ def one(seed, i, has_globals, gfields, res, templates=()):
                 warnings.simplefilter("ignore")
                 with start_action(action_type="outer") as outer:
                     before_len[0] = len(tape.entries)
-                    tpl_type(tpl, "message")(**supplied).write()
+                    via_copy(tpl_type(tpl, "message")(**supplied), via, extra).write()
             ctx = outer
             target = lambda m: m.get("message_type") == mt
         elif kind == "msg_write_action":
@@ -245,7 +296,7 @@ def one(seed, i, has_globals, gfields, res, templates=()):
                 with start_action(action_type="outer") as outer:
                     with start_action(action_type="inner"):
                         before_len[0] = len(tape.entries)
-                        tpl_type(tpl, "message")(**supplied).write(action=outer)
+                        via_copy(tpl_type(tpl, "message")(**supplied), via, extra).write(action=outer)
             ctx = None
             explicit_action = True
             target = lambda m: m.get("message_type") == mt
@@ -304,7 +355,14 @@ def one(seed, i, has_globals, gfields, res, templates=()):
         raised = e
         problems.append("the logging call raised %r" % (e,))
     finally:
+        if late_add:
+            try:
+                add_destinations(rec)  # the first add_destinations of this process: the start-up buffer is handed to rec
+            except BaseException as e:
+                problems.append("the first add_destinations raised %r" % (e,))
         remove_destination(rec)
+    copied = via is not None and kind in ("msg_call_write", "msg_write_action")
+    replayed = late_add and [m.get("n") for m in tape.msgs("rec") if m.get("message_type") == "c13:prelude"] == list(range(nprelude))
 
     if not unchanged(supplied, snap):
         problems.append("caller-held data was modified by the %s call (now %r)" % (kind, sorted(supplied)))
@@ -400,15 +458,29 @@ def one(seed, i, has_globals, gfields, res, templates=()):
     d[kind + ":" + mode] = d.get(kind + ":" + mode, 0) + 1
     c["serializer_calls_counted"] = c.get("serializer_calls_counted", 0) + sum(calls.values())
     c["caller_snapshots_compared"] = c.get("caller_snapshots_compared", 0) + 1
+    if copied:
+        c["copied_typed_messages_written"] = c.get("copied_typed_messages_written", 0) + 1
+        if will_fail:
+            c["copied_typed_messages_failing"] = c.get("copied_typed_messages_failing", 0) + 1
+    if late_add:
+        if not replayed:
+            # the plain messages logged just before did not come out of the start-up buffer: this process was not in its start-up phase
+            c["startup_cases_not_in_startup_phase"] = c.get("startup_cases_not_in_startup_phase", 0) + 1
+        else:
+            c["startup_cases"] = c.get("startup_cases", 0) + 1
+            if will_fail:
+                c["startup_failures_before_first_add"] = c.get("startup_failures_before_first_add", 0) + 1
     if failing or missing or any(sers[k] in NON_IDEMPOTENT for k in keys):
-        res["nontrivial"].append(h([kind, sorted(sers.items()), sorted(decl.items()), sorted(failing), missing, has_globals]))
+        res["nontrivial"].append(h([kind, sorted(sers.items()), sorted(decl.items()), sorted(failing), missing, has_globals] +
+                                   ([via] if copied else []) + (["startup"] if late_add else [])))
     if res.get("sample") is None and will_fail:
         res["sample"] = {"kind": kind, "serializers": sers, "failing": sorted(failing), "missing": missing, "values": values,
                          "tape": [{k: v for k, v in m.items() if k not in ("timestamp", "traceback")} for m in msgs]}
     if problems:
         res["violations"].append({"msg": problems[0], "mech": None,
                                   "detail": {"case": i, "kind": kind, "mode": mode, "serializers": sers, "failing": sorted(failing), "missing": missing,
-                                             "values": values, "problems": problems[:8]}})
+                                             "values": values, "problems": problems[:8], "message_copied_by": via if copied else None,
+                                             "logged_before_first_add_destinations": bool(late_add)}})
 
 
 def reentrant_case(seed, i, res):
@@ -592,10 +664,49 @@ def foreign_logger_case(seed, i, res):
         res["violations"].append({"msg": problems[0], "mech": None, "detail": {"kind": "foreign_logger", "which": which, "problems": problems}})
 
 
+def _add_counters(dst, src):
+    for k, v in src.items():
+        if isinstance(v, dict):
+            _add_counters(dst.setdefault(k, {}), v)
+        else:
+            dst[k] = dst.get(k, 0) + v
+
+
+def part_startup(spec, res):
+    """Every case in a fresh fork of this process, which (like its parent, the runner) has never added a destination: the typed
+    logging call is made during the start-up phase, the first add_destinations comes afterwards."""
+    trng = random.Random("%s:C13:sutpl:%d" % (spec["seed"], spec["lo"]))
+    templates = [make_template(trng, "s%d" % j) for j in range(6)]
+
+    def child(i):
+        sub = {"evals": 0, "nontrivial": [], "counters": {}, "violations": [], "sample": None}
+        one(spec["seed"], 10000000 + i, False, {}, sub, templates, late_add=True)
+        return sub
+    for i in range(spec["lo"], spec["hi"]):
+        kind, sub = call_in_fork(lambda: child(i), timeout=120)
+        if kind == "timeout":
+            res["inconclusive"] = "start-up case exceeded its watchdog"
+            continue
+        if kind != "ok":
+            res["evals"] += 1
+            res["violations"].append({"msg": "running the start-up case failed: %s" % kind, "mech": None, "detail": {"part": "startup", "case": i, "output": str(sub)[-1500:]}})
+            continue
+        res["evals"] += sub["evals"]
+        res["nontrivial"].extend(sub["nontrivial"])
+        _add_counters(res["counters"], sub["counters"])
+        if len(res["violations"]) < 5:
+            res["violations"].extend(sub["violations"])
+        if res["sample"] is None and sub.get("sample"):
+            res["sample"] = dict(sub["sample"], logged_before_first_add_destinations=True)
+
+
 def run_case(spec):
     res = {"evals": 0, "nontrivial": [], "counters": {}, "violations": [], "sample": None, "sets": {"interleavings": [], "preemption_lines": []}}
     if spec["part"] == "threads":
         part_threads(spec, res)
+        return res
+    if spec["part"] == "startup":
+        part_startup(spec, res)
         return res
     for i in range(spec["lo"], spec["lo"] + 3):
         reentrant_case(spec["seed"], i, res)
@@ -619,4 +730,8 @@ def finalize(agg, tier):
             return "message kind %s never exercised" % k
     if agg["counters"].get("thread_schedules_run", 0) < 300 or agg["counters"].get("reentrant_serializer_cases", 0) < 100:
         return "too few thread schedules / re-entrant serializer cases"
+    if agg["counters"].get("copied_typed_messages_written", 0) < 100 or agg["counters"].get("copied_typed_messages_failing", 0) < 20:
+        return "too few typed Message objects were copied (copy.copy / copy.deepcopy) before being written"
+    if agg["counters"].get("startup_failures_before_first_add", 0) < 20:
+        return "too few serialization failures happened before the first add_destinations of a process"
     return None
